@@ -213,6 +213,9 @@ func (w *W) Violate(kind, sig, msg string, replay interface{}) {
 	if len(w.res.Violations) >= w.maxViol {
 		return
 	}
+	if len(msg) > 6000 {
+		msg = msg[:3000] + fmt.Sprintf(" ...[%d bytes omitted]... ", len(msg)-6000) + msg[len(msg)-3000:]
+	}
 	w.res.Violations = append(w.res.Violations, Violation{Prop: w.Prop, Kind: kind, Sig: sig, Msg: msg, Case: w.lastCase, Replay: replay})
 }
 
